@@ -3,7 +3,11 @@
 // C20 for centrality::eigenvector::eigenvector_centrality (the property's anchor eigenvector.rs:62): the error channel on the kind of graph it does
 // not support (multi-edge: get_edge answers WrongMethod there) and panic-freedom of its lookups - `get_edge(n, nbr).unwrap()` for every listed
 // neighbour, `x.get_mut(nbr).unwrap()`, `xlast.get(n).unwrap()`. The float pipelines (sum of squares, sqrt, division of all values, sum of absolute
-// differences) are ASSUMED declarations (A5): nothing is claimed about the values (C18 is not applicable).
+// differences) are ASSUMED declarations (A5) over uninterpreted relations / exact per-entry effects.
+// C18 (the clauses a contract over uninterpreted floats can decide): one entry per node; Ok is returned only for a vector that (a) is the per-entry
+// quotient of the accumulated vector by the norm the code computes from it (sqrt of its sum of squares, 1.0 when that is 0.0), (b) passed the
+// convergence test `sum |x - xlast| < n * tolerance` against the iterate it was computed from, and (c) left every entry nobody points to at its previous
+// value before the division (the accumulation follows out-steps: A^T, not A); exhaustion of max_iter yields PowerIterationFailedConvergence.
 #![allow(unused_imports)]
 use vstd::prelude::*;
 use vstd::std_specs::cmp::*;
@@ -40,26 +44,57 @@ pub fn vmap_keys_vec<K: Eq + Hash, V>(m: &HashMap<K, V>) -> (r: Vec<&K>)
 #[verifier::external_body]
 pub fn vmap_add_assign<K: Eq + Hash>(m: &mut HashMap<K, f64>, k: &K, v: f64)
     requires old(m)@.contains_key(*k),
-    ensures final(m)@.dom() =~= old(m)@.dom(),
+    ensures final(m)@ == old(m)@.insert(*k, fadd(old(m)@[*k], v)),
 { *m.get_mut(k).unwrap() += v; }
 // `m.values().map(|v| v.powf(2.0)).sum()`, `x.sqrt()`, `m.values_mut().for_each(|v| *v /= d)`: total float pipelines, no key is added or removed
+// The two sums run in hash-iteration order and float addition is not associative: they are RELATIONS between the map(s) and the result, not functions.
+pub uninterp spec fn sum_squares_of<K>(m: Map<K, f64>, r: f64) -> bool;
+pub uninterp spec fn sum_abs_diff_of<K>(a: Map<K, f64>, b: Map<K, f64>, r: f64) -> bool;
+pub uninterp spec fn fsqrt(x: f64) -> f64;
+// the norm the code divides by: sqrt of the sum of squares, replaced by 1.0 when it compares equal to 0.0
+pub open spec fn norm_of(s: f64) -> f64 { if feq(fsqrt(s), 0.0f64) { 1.0f64 } else { fsqrt(s) } }
+// per-entry division (order-independent, exact)
+pub open spec fn div_all<K>(m: Map<K, f64>, d: f64) -> Map<K, f64> { Map::new(m.dom(), |k: K| fdiv(m[k], d)) }
 #[verifier::external_body]
 pub fn vsum_squares<K: Eq + Hash>(m: &HashMap<K, f64>) -> (r: f64)
+    ensures sum_squares_of(m@, r),
 { m.values().map(|v| v.powf(2.0)).sum() }
 #[verifier::external_body]
 pub fn vsqrt(x: f64) -> (r: f64)
+    ensures r == fsqrt(x),
 { x.sqrt() }
 #[verifier::external_body]
 pub fn vmap_div_all<K: Eq + Hash>(m: &mut HashMap<K, f64>, d: f64)
-    ensures final(m)@.dom() =~= old(m)@.dom(),
+    ensures final(m)@ == div_all(old(m)@, d),
 { m.values_mut().for_each(|v| *v /= d); }
 // `a.iter().map(|(k, v)| (v - b.get(k).unwrap()).abs()).sum()`: every key of a must be a key of b (the unwrap's obligation, stated as the precondition)
 #[verifier::external_body]
 pub fn vsum_abs_diff<K: Eq + Hash>(a: &HashMap<K, f64>, b: &HashMap<K, f64>) -> (r: f64)
     requires forall|k: K| a@.contains_key(k) ==> b@.contains_key(k),
+    ensures sum_abs_diff_of(a@, b@, r),
 { a.iter().map(|(k, v)| (v - b.get(k).unwrap()).abs()).sum() }
 
-//@ extract fn src/algorithms/centrality/eigenvector.rs eigenvector_centrality props=C20
+// the tolerance in force (`tolerance.unwrap_or(1.0e-6)`)
+pub open spec fn tol_of(t: Option<f64>) -> f64 { match t { Some(v) => v, None => 1.0e-6f64 } }
+// nobody points to k: no node has a step (successor when directed, neighbour otherwise) to k
+pub open spec fn no_in_step<T: Eq + PartialOrd + Send + Sync, A: Clone>(g: Graph<T, A>, k: T) -> bool {
+    forall|n: T| !#[trigger] steps_to(g, n, k)
+}
+// what an Ok result of the power iteration is: the normalised accumulation of a previous iterate `xl` that passed the convergence test against it
+pub open spec fn converged_iterate<T: Eq + PartialOrd + Send + Sync, A: Clone>(g: Graph<T, A>, tol: f64, res: Map<T, f64>, xl: Map<T, f64>, acc: Map<T, f64>, s: f64, y: f64) -> bool {
+    &&& xl.dom() =~= res.dom() && acc.dom() =~= res.dom()
+    &&& forall|k: T| #[trigger] acc.contains_key(k) && no_in_step(g, k) ==> acc[k] == xl[k]
+    &&& sum_squares_of(acc, s)
+    &&& res == div_all(acc, norm_of(s))
+    &&& sum_abs_diff_of(res, xl, y)
+    &&& flt(y, fmul(usize_to_f64(g.nodes_vec@.len() as usize), tol))
+}
+
+pub open spec fn is_converged_iterate<T: Eq + PartialOrd + Send + Sync, A: Clone>(g: Graph<T, A>, tol: f64, res: Map<T, f64>) -> bool {
+    exists|xl: Map<T, f64>, acc: Map<T, f64>, s: f64, y: f64| #[trigger] converged_iterate(g, tol, res, xl, acc, s, y)
+}
+
+//@ extract fn src/algorithms/centrality/eigenvector.rs eigenvector_centrality props=C20,C18
 //@ rewrite
 -> Result<HashMap<T, f64>, Error>
 //@ with
@@ -100,6 +135,9 @@ vcast_usize_f64(nnodes)
         invariant
             graph.wf_nodes(), graph.wf_estore(), graph.wf_rows(), graph.wf_index_members(), steps_are_stored(*graph),
             !graph.specs.multi_edges,
+            nnodes == graph.nodes_vec@.len(),
+            _tolerance == tol_of(tolerance),
+            max_iter == Some(0u32) ==> _max_iter == 0,
             forall|k: T| #[trigger] x@.contains_key(k) <==> graph.knows(k),
     {
 //@ rewrite
@@ -113,6 +151,7 @@ let keys = vmap_keys_vec(&xlast);
                 xlast@.dom() =~= x@.dom(),
                 forall|k: T| #[trigger] x@.contains_key(k) <==> graph.knows(k),
                 forall|i: int| 0 <= i < keys@.len() ==> xlast@.contains_key(*#[trigger] keys@[i]),
+                forall|k: T| #[trigger] x@.contains_key(k) && no_in_step(*graph, k) ==> x@[k] == xlast@[k],
         {
 //@ rewrite
 for nbr in graph.get_successors_or_neighbors(n.clone()) {
@@ -126,6 +165,7 @@ let nbrs = graph.get_successors_or_neighbors(n.clone());
                     forall|k: T| #[trigger] x@.contains_key(k) <==> graph.knows(k),
                     graph.knows(*n),
                     one_step_list(*graph, *n, nbrs@),
+                    forall|k: T| #[trigger] x@.contains_key(k) && no_in_step(*graph, k) ==> x@[k] == xlast@[k],
             {
                 proof { assert(steps_to(*graph, *n, nbr.name)); }
 //@ rewrite
@@ -140,7 +180,9 @@ vmap_add_assign(&mut x, &nbr.name,
 let mut norm: f64 = x.values().map(|v| v.powf(2.0)).sum();
         norm = norm.sqrt();
 //@ with
-let mut norm: f64 = vsum_squares(&x);
+let ghost acc = x@;
+        let mut norm: f64 = vsum_squares(&x);
+        let ghost ssq = norm;
         norm = vsqrt(norm);
 //@ rewrite
 x.values_mut().for_each(|v| *v /= norm);
@@ -151,6 +193,15 @@ x.values_mut().for_each(|v| *v /= norm);
 //@ with
 vmap_div_all(&mut x, norm);
         let y: f64 = vsum_abs_diff(&x, &xlast);
+        proof { assert(norm == norm_of(ssq)); }
+//@ rewrite
+return Ok(x);
+//@ with
+proof {
+                assert(converged_iterate(*graph, tol_of(tolerance), x@, xlast@, acc, ssq, y));
+                assert(is_converged_iterate(*graph, tol_of(tolerance), x@));
+            }
+            return Ok(x);
 //@ spec
     requires
         graph.wf_nodes(), graph.wf_estore(), graph.wf_rows(),
@@ -160,7 +211,13 @@ vmap_div_all(&mut x, norm);
         graph.specs.multi_edges ==> is_err_kind(r, ErrorKind::WrongMethod),
         // [C20.eigenvector.only_documented_errors_and_one_entry_per_node]
         r.is_err() ==> is_err_kind(r, ErrorKind::WrongMethod) || is_err_kind(r, ErrorKind::PowerIterationFailedConvergence),
+        // [C18.eigenvector.one_entry_per_node]
         r.is_ok() ==> forall|k: T| #[trigger] r.unwrap()@.contains_key(k) <==> graph.knows(k),
+        // [C18.eigenvector.ok_only_for_a_normalised_iterate_that_passed_the_convergence_test]
+        r.is_ok() ==> is_converged_iterate(*graph, tol_of(tolerance), r.unwrap()@),
+        // [C18.eigenvector.exhaustion_is_reported_as_an_error]
+        !graph.specs.multi_edges && max_iter == Some(0u32) ==> is_err_kind(r, ErrorKind::PowerIterationFailedConvergence),
+        !graph.specs.multi_edges && r.is_err() ==> is_err_kind(r, ErrorKind::PowerIterationFailedConvergence),
 //@ end
 } // verus!
 fn main() {}
